@@ -24,6 +24,8 @@ pub fn info(id: &str) -> Option<PropInfo> {
         "C01" => ("exploration", "subjects = closed types of the fixed + seeded universes; values from the edge-biased recursive strategy; oracle: model value equality after serialize -> deserialize_full. Non-trivial = value has a non-empty sequence, a non-first variant or a non-default primitive; distinct by (type, value)."),
         "C02" => ("exploration", "same domain; stream placed page-aligned and at an odd multiple of the largest unit; oracle: eps value == original == full copy; DeserType TypeId equals the documented substitution. Non-trivial = at least one non-empty borrow or non-empty sequence."),
         "C03" => ("exploration", "same domain; borrows (pre-order) must coincide with the serializer's block events at borrowed positions (offset, length, alignment, in-buffer); allocation calls/bytes invariant under scaling borrowed lengths by 2, 5, 64. Non-trivial = at least one non-empty borrow."),
+        "C04" => ("exploration", "universes of generated definitions extended with near-miss mutants in separate modules (field renamed, fields swapped, same-size field type, copy kind toggled, const parameter renamed, variant renamed/swapped, repr(align) added/changed, array length, tuple arity, sequence kind, type renamed, identical copy as positive control) and near-miss built-in compositions; (1) over all unordered pairs of subjects: same (type hash, alignment hash) iff same structural description (type-level attributes; layout = repr attributes, size, offsets from the compiler); (2) bytes of T read as U (full and eps) for all near-miss pairs both ways and a random sample of pairs: WrongTypeHash / WrongAlignHash with both hash values, or accepted with the same value when the descriptions are equal; (3) slice/iterator/vector share both hashes. Non-trivial = cross-read of a pair with different descriptions, distinct by (T, U, value)."),
+        "C05" => ("exploration", "type definitions generated from the derive grammar (named/tuple/unit structs, unit/tuple/struct variants, field / inner / phantom / const / defaulted parameters, inline bounds, where-clauses, zero_copy / deep_copy / no attribute, repr attributes, nesting of earlier definitions) x instantiations x values; oracles: the generated program compiles against the working tree (a failure is bisected to the culprit definition), every instantiation round-trips in both modes, TypeId of DeserType equals the documented substitution and SerType is the type itself; identified probe classes for shapes the statement names that the derive rejects. Non-trivial = definition with >= 1 parameter or >= 2 variants, distinct by (type, value)."),
         "C06" => ("exploration", "bytes compared with an independent reference encoder + reference hasher (compiler padding masked); golden corpus written by the pinned build re-read. Non-trivial = stream contains a tag, length prefix or block."),
         "C07" => ("exploration", "event trace of the real padding code (Align/Block): start % unit == 0, minimal all-zero gap, unit power of two >= native alignment and >= field units; returned count == bytes written == bytes consumed by both readers; exhaustive pad formula grid. Non-trivial = case with a block preceded by a gap > 0."),
         "C08" => ("exploration", "files of generated values x loaders x 8 flag sets x move/thread scripts; oracle: loaded == eps(file bytes); borrows inside region; region alignment and zero tail. Non-trivial = structure with a non-empty borrow."),
@@ -68,6 +70,15 @@ pub fn universes_for(opts: &Opts) -> Vec<String> {
     if opts.prop == "C19" {
         return vec!["fixed".to_string()];
     }
+    if opts.prop == "C04" {
+        let mut v = vec!["mfixed".to_string(), format!("ms{}", opts.seed)];
+        if opts.tier == "thorough" {
+            for k in 1..6 {
+                v.push(format!("ms{}k{}", opts.seed, k));
+            }
+        }
+        return v;
+    }
     let mut v = vec!["fixed".to_string(), format!("s{}", opts.seed)];
     if opts.tier == "thorough" {
         for k in 1..8 {
@@ -83,6 +94,9 @@ pub fn run(opts: &Opts) -> i32 {
         eprintln!("property {} has no check registered", opts.prop);
         return 2;
     };
+    if opts.prop == "C05" {
+        return crate::c05::run(opts, &pi);
+    }
     if opts.prop == "C09" {
         return crate::c09::run(opts, &pi);
     }
